@@ -631,6 +631,8 @@ def quick_family():
         single("int", "lit", preparers=["v"]),
         single("nums", "mut", preparers=["nums"]),
         single("nums", "mut", item_preparers=["nums"]),
+        single("words", "mut", preparers=["words"]),        # the DEFAULT itself is a value the preparer changes
+        single("words", "mut", item_preparers=["words"]),
         single("scores", "mut", item_preparers=["scores"]),
         single("tags", "mut", item_preparers=["tags"]),
         single("links", "none", item_preparers=["links"]),
